@@ -5,6 +5,12 @@
 //!   gen_trivial|gen_claw|gen_utility <repr>
 //!       =>  [order [vertices] [arcs]]  |  panic
 //!
+//!   gen_complete_big <repr> <n> <tmin>   `complete(n)` at a large order, observed in COMPLEMENT form
+//!       =>  skip                                      when fewer than `tmin` CPUs are available
+//!       |   [order vertices_ok size n_missing [first 20 missing arcs] n_bad [first 20 bad arcs]] | panic
+//!       missing = pairs u != v (both < order) that `arcs()` does not yield; bad = yielded arcs with
+//!       u = v or an endpoint >= order.  (The full arc list of complete(4097) would be ~200 MB.)
+//!
 //! `repr` ∈ al am mx el (all generators) and wu wi (`Empty` only: `gen_empty`, `gen_trivial`).
 #![allow(clippy::all)]
 
@@ -29,9 +35,62 @@ macro_rules! by_repr {
     };
 }
 
+fn compact<D>(d: &D) -> V
+where
+    D: graaf::Order + graaf::Vertices + graaf::Arcs + graaf::Size,
+{
+    let order = d.order();
+    let vok = d.vertices().eq(0..order);
+    let words = order.div_ceil(64).max(1);
+    let mut seen = vec![0u64; order * words];
+    let mut bad: Vec<(usize, usize)> = vec![];
+    let mut n_bad = 0usize;
+    for (u, v) in d.arcs() {
+        if u == v || u >= order || v >= order {
+            n_bad += 1;
+            if bad.len() < 20 {
+                bad.push((u, v));
+            }
+        } else {
+            seen[u * words + v / 64] |= 1 << (v % 64);
+        }
+    }
+    let mut missing: Vec<(usize, usize)> = vec![];
+    let mut n_missing = 0usize;
+    for u in 0..order {
+        for v in 0..order {
+            if u != v && seen[u * words + v / 64] >> (v % 64) & 1 == 0 {
+                n_missing += 1;
+                if missing.len() < 20 {
+                    missing.push((u, v));
+                }
+            }
+        }
+    }
+    V::L(vec![V::u(order), V::bool(vok), V::u(d.size()), V::u(n_missing), V::pairs(missing), V::u(n_bad), V::pairs(bad)])
+}
+
 pub fn eval(op: &str, args: &[V]) -> Option<Vec<V>> {
     let name = op.strip_prefix("gen_")?;
     match name {
+        "complete_big" => {
+            let [repr, n, tmin] = args else { return None };
+            let (n, tmin) = (n.as_usize()?, tmin.as_usize()?);
+            if n > 5000 {
+                return None;
+            }
+            let t = std::thread::available_parallelism().map_or(1, std::num::NonZero::get);
+            if t < tmin {
+                return Some(vec![V::atom("skip")]);
+            }
+            Some(vec![match repr.as_atom()? {
+                "al" => compact(&AdjacencyList::complete(n)),
+                "am" => compact(&AdjacencyMap::complete(n)),
+                "mx" => compact(&AdjacencyMatrix::complete(n)),
+                "el" => compact(&EdgeList::complete(n)),
+                _ => return None,
+            }])
+        }
         "empty" | "complete" | "circuit" | "cycle" | "path" | "star" | "wheel" => {
             let [repr, n] = args else { return None };
             let repr = repr.as_atom()?;
@@ -86,7 +145,57 @@ pub fn eval(op: &str, args: &[V]) -> Option<Vec<V>> {
 
 const ONE_PARAM: [&str; 7] = ["empty", "complete", "circuit", "cycle", "path", "star", "wheel"];
 
+/// Large orders (round 2): thresholds of "rows per thread" heuristics (256 * t + 1, 512, 513, 768..770),
+/// observed in complement form; `tmin` keeps a case from running where it cannot matter.
+fn emit_big(stress: bool, emit: &mut dyn FnMut(String)) {
+    for (n, tmin) in [(513, 2), (769, 3), (770, 3)] {
+        emit(format!("gen_complete_big al {n} {tmin}"));
+    }
+    if stress {
+        for (n, tmin) in [(515, 2), (1030, 3), (1281, 5), (2049, 8), (3329, 13), (4097, 16), (1024, 2), (512, 2)] {
+            emit(format!("gen_complete_big al {n} {tmin}"));
+        }
+        for repr in ["am", "mx", "el"] {
+            emit(format!("gen_complete_big {repr} 513 1"));
+        }
+    }
+}
+
+/// The O(n)-arc generators (and empty) at orders past 256 / 512 / 1024 in every representation.
+fn emit_large_sparse(orders: &[usize], mx_max: usize, emit: &mut dyn FnMut(String)) {
+    for &n in orders {
+        for repr in graphs::UNWEIGHTED {
+            if repr == "mx" && n > mx_max {
+                continue; // the list model of the bit matrix is quadratic in the cell count
+            }
+            for name in ["empty", "circuit", "cycle", "path", "star", "wheel"] {
+                emit(format!("gen_{name} {repr} {n}"));
+            }
+        }
+    }
+}
+
 pub fn gen(rng: &mut Rng, thorough: bool, emit: &mut dyn FnMut(String)) {
+    if crate::stress() {
+        emit_big(true, emit);
+        emit_large_sparse(&[257, 300, 512, 513, 1024], 300, emit);
+        emit("gen_wheel mx 512".to_string());
+        emit("gen_cycle mx 513".to_string());
+        for n in [257, 300] {
+            for repr in graphs::UNWEIGHTED {
+                emit(format!("gen_complete {repr} {n}"));
+            }
+        }
+        for (m, n) in [(200, 57), (1, 256), (256, 1), (150, 150)] {
+            for repr in graphs::UNWEIGHTED {
+                emit(format!("gen_biclique {repr} {m} {n}"));
+            }
+        }
+        return;
+    }
+    emit_big(false, emit);
+    emit_large_sparse(&[257, 300], 300, emit);
+    emit_large_sparse(&[512, 1024], 0, emit);
     // (0) the parameterless defaults, every representation
     for repr in graphs::UNWEIGHTED {
         for name in ["trivial", "claw", "utility"] {
